@@ -392,6 +392,9 @@ class SWCurve:
 
     identity = None
 
+    def add_then_mul(self, P, Q, k):
+        return self.mul(k, self.add(P, Q))
+
     def eq(self, P, Q):
         if P is None or Q is None:
             return P is None and Q is None
@@ -399,45 +402,75 @@ class SWCurve:
 
 
 class IncompleteAddition(Exception):
-    pass
+    """the result is a point of the curve that has no affine twisted Edwards coordinates"""
 
 
 class TECurve:
-    """a v^2 + w^2 = 1 + d v^2 w^2, unified affine addition law"""
+    """a v^2 + w^2 = 1 + d v^2 w^2. Arithmetic is done on the birationally equivalent short Weierstrass curve
+    (through the Montgomery form K t^2 = s^3 + J s^2 + s, J = 2(a+d)/(a-d), K = 4/(a-d), RFC 9380 appendix D.1),
+    where the textbook chord-and-tangent law is complete; only a final result without affine Edwards coordinates
+    (the 2- and 4-torsion points "at infinity" when a is a non-square or d a square) raises IncompleteAddition."""
 
     def __init__(self, F, a, d):
         self.F, self.a, self.d = F, a, d
         self.identity = (F.zero, F.one)
+        amd_inv = F.inv(F.sub(a, d))
+        self.J = F.mul(F.muli(F.add(a, d), 2), amd_inv)
+        self.K = F.muli(amd_inv, 4)
+        J, K = self.J, self.K
+        inv3 = F.inv(F.muli(F.one, 3))
+        self.J3 = F.mul(J, inv3)
+        k2inv = F.inv(F.sqr(K))
+        # y^2 = x^3 + A x + B with x = (s + J/3)/K, y = t/K
+        A = F.mul(F.sub(F.muli(F.one, 3), F.sqr(J)), F.mul(inv3, k2inv))
+        B = F.mul(F.sub(F.muli(F.mul(F.sqr(J), J), 2), F.muli(J, 9)), F.mul(F.inv(F.muli(F.one, 27)), F.mul(k2inv, F.inv(K))))
+        self.W = SWCurve(F, A, B)
 
     def on_curve(self, P):
         F = self.F
         v2, w2 = F.sqr(P[0]), F.sqr(P[1])
         return F.eq(F.add(F.mul(self.a, v2), w2), F.add(F.one, F.mul(self.d, F.mul(v2, w2))))
 
+    def to_w(self, P):
+        F = self.F
+        v, w = P
+        if F.is_zero(v):
+            if F.eq(w, F.one):
+                return None
+            s, t = F.zero, F.zero                       # (0, -1) <-> Montgomery (0, 0)
+        else:
+            s = F.mul(F.add(F.one, w), F.inv(F.sub(F.one, w)))
+            t = F.mul(s, F.inv(v))
+        Q = (F.mul(F.add(s, self.J3), F.inv(self.K)), F.mul(t, F.inv(self.K)))
+        assert self.W.on_curve(Q), "Edwards -> Weierstrass conversion left the curve (input off the Edwards curve?)"
+        return Q
+
+    def from_w(self, Q):
+        F = self.F
+        if Q is None:
+            return self.identity
+        s = F.sub(F.mul(Q[0], self.K), self.J3)
+        t = F.mul(Q[1], self.K)
+        if F.is_zero(t):
+            if F.is_zero(s):
+                return (F.zero, F.neg(F.one))
+            raise IncompleteAddition("2-torsion point without affine Edwards coordinates")
+        if F.is_zero(F.add(s, F.one)):
+            raise IncompleteAddition("4-torsion point without affine Edwards coordinates")
+        return (F.mul(s, F.inv(t)), F.mul(F.sub(s, F.one), F.inv(F.add(s, F.one))))
+
     def neg(self, P):
         return (self.F.neg(P[0]), P[1])
 
     def add(self, P, Q):
-        F = self.F
-        x1, y1 = P
-        x2, y2 = Q
-        t = F.mul(self.d, F.mul(F.mul(x1, x2), F.mul(y1, y2)))
-        d1, d2 = F.add(F.one, t), F.sub(F.one, t)
-        if F.is_zero(d1) or F.is_zero(d2):
-            raise IncompleteAddition()
-        x3 = F.mul(F.add(F.mul(x1, y2), F.mul(y1, x2)), F.inv(d1))
-        y3 = F.mul(F.sub(F.mul(y1, y2), F.mul(self.a, F.mul(x1, x2))), F.inv(d2))
-        return (x3, y3)
+        return self.from_w(self.W.add(self.to_w(P), self.to_w(Q)))
 
     def mul(self, k, P):
-        if k < 0:
-            return self.mul(-k, self.neg(P))
-        R = self.identity
-        for bit in bin(k)[2:] if k else "":
-            R = self.add(R, R)
-            if bit == "1":
-                R = self.add(R, P)
-        return R
+        return self.from_w(self.W.mul(k, self.to_w(P)))
+
+    def add_then_mul(self, P, Q, k):
+        """k * (P + Q) without leaving the Weierstrass model in between"""
+        return self.from_w(self.W.mul(k, self.W.add(self.to_w(P), self.to_w(Q))))
 
     def eq(self, P, Q):
         return self.F.eq(P[0], Q[0]) and self.F.eq(P[1], Q[1])
@@ -488,6 +521,8 @@ class Suite:
         else:
             self.E = TECurve(F, F.el(prm["curve"]["a"]), F.el(prm["curve"]["d"]))
             self.J, self.K = F.el(prm["mont"]["J"]), F.el(prm["mont"]["K"])
+            assert F.eq(self.J, self.E.J) and F.eq(self.K, self.E.K), \
+                "exported Montgomery coefficients differ from J = 2(a+d)/(a-d), K = 4/(a-d)"
 
     # -- parsing helpers
     def pt(self, j):
@@ -524,7 +559,7 @@ class Suite:
         u = self.hash_to_field(msg, dst, hname)
         Q0, _ = self.map_to_curve(u[0])
         Q1, _ = self.map_to_curve(u[1])
-        return self.clear_cofactor(self.E.add(Q0, Q1))
+        return self.E.add_then_mul(Q0, Q1, self.h_eff)
 
 
 # ------------------------------------------------------------------------------------------------
